@@ -711,6 +711,9 @@ def chunked(order, sizes):
 
 def execute(case, ctx, adjudication=False):
     key, envn = case["zoo"]
+    if "mvmoe" in key:
+        from ..policies import moe_watch
+        moe_watch(ctx)  # expert choices within float32 rounding are don't-care (vf.policies, MoE gates)
     if case.get("excluded"):
         ctx.exclude(f"by_design:{key}")
         return
@@ -890,6 +893,9 @@ def execute_eval(case, ctx):
     from rl4co.tasks.eval import evaluate_policy
 
     key, envn = case["zoo"]
+    if "mvmoe" in key:
+        from ..policies import moe_watch
+        moe_watch(ctx)  # expert choices within float32 rounding are don't-care (vf.policies, MoE gates)
     slice_ = f"{key}/{envn}|greedy"
     ctx.event(f"zoo:{key}/{envn}")
     cfg = small_cfg(envn, case["n"])
